@@ -54,6 +54,7 @@ type shape struct {
 	// Content < 0: rotate with the position in the history
 	Content int
 	NoState bool   // append with an empty HardState
+	LongOnly bool  // used by the hand-shaped histories only (not part of the enumerated alphabet)
 	Kind    string // append | hs-commit | hs-term | overwrite | snap | reopen
 }
 
@@ -73,6 +74,9 @@ var shapes = []shape{
 	{Name: "ow", Kind: "overwrite"},
 	{Name: "snap", Kind: "snap"},
 	{Name: "reopen", Kind: "reopen"},
+	// big batches: many unsynced sectors at one crash point (exercise the subset cap)
+	{Name: "a4x1100", Kind: "append", Sizes: []int{1100, 1100, 1100, 1100}, Content: -1, LongOnly: true},
+	{Name: "a6x1100", Kind: "append", Sizes: []int{1100, 1100, 1100, 1100, 1100, 1100}, Content: -1, LongOnly: true},
 }
 
 func shapeByName(n string) (int, bool) {
@@ -299,7 +303,7 @@ func runHistory(root string, seg int64, ops []int) (*runner, error) {
 	r.rec.observe("start", nil)
 	w, err := wal.Create(nop, r.walDir, metadata)
 	if err != nil {
-		return nil, fmt.Errorf("Create: %v", err)
+		return nil, &apiError{"Create", r.rec.curOp, err}
 	}
 	r.w = w
 	r.ss = snap.New(nop, r.snapDir)
@@ -316,7 +320,7 @@ func runHistory(root string, seg int64, ops []int) (*runner, error) {
 		switch {
 		case st.Reopen:
 			if err := r.w.Close(); err != nil {
-				return nil, fmt.Errorf("Close: %v", err)
+				return nil, &apiError{"Close", r.rec.curOp, err}
 			}
 			r.m.ackedRecs = len(r.m.recs)
 			r.rec.observe("ret:Close", nil)
@@ -326,12 +330,12 @@ func runHistory(root string, seg int64, ops []int) (*runner, error) {
 			}
 			w, err := wal.Open(nop, r.walDir, ws)
 			if err != nil {
-				return nil, fmt.Errorf("Open: %v", err)
+				return nil, &apiError{"Open", r.rec.curOp, err}
 			}
 			md, hs, ents, err := w.ReadAll()
 			if err != nil {
 				w.Close()
-				return nil, fmt.Errorf("ReadAll on reopen: %v", err)
+				return nil, &apiError{"ReadAll", r.rec.curOp, err}
 			}
 			r.w = w
 			// self-check of the uncrashed run
@@ -343,7 +347,7 @@ func runHistory(root string, seg int64, ops []int) (*runner, error) {
 			must = true
 		case st.Snap != nil:
 			if err := r.ss.SaveSnap(*st.Snap); err != nil {
-				return nil, fmt.Errorf("SaveSnap: %v", err)
+				return nil, &apiError{"SaveSnap", r.rec.curOp, err}
 			}
 			b, _ := st.Snap.Marshal()
 			r.m.snaps[st.Snap.Metadata.Index] = b
@@ -351,19 +355,19 @@ func runHistory(root string, seg int64, ops []int) (*runner, error) {
 			r.rec.observe("ret:SaveSnap", nil)
 			cs := st.Snap.Metadata.ConfState
 			if err := r.w.SaveSnapshot(walpb.Snapshot{Index: st.Snap.Metadata.Index, Term: st.Snap.Metadata.Term, ConfState: &cs}); err != nil {
-				return nil, fmt.Errorf("SaveSnapshot: %v", err)
+				return nil, &apiError{"SaveSnapshot", r.rec.curOp, err}
 			}
 			r.m.record(i, &st)
 			r.m.ackedRecs = len(r.m.recs)
 			r.m.walSnapAck = st.Snap.Metadata.Index
 			r.rec.observe("ret:SaveSnapshot", nil)
 			if err := r.w.ReleaseLockTo(st.Snap.Metadata.Index); err != nil {
-				return nil, fmt.Errorf("ReleaseLockTo: %v", err)
+				return nil, &apiError{"ReleaseLockTo", r.rec.curOp, err}
 			}
 			must = true
 		default:
 			if err := r.w.Save(st.St, st.Ents); err != nil {
-				return nil, fmt.Errorf("Save: %v", err)
+				return nil, &apiError{"Save", r.rec.curOp, err}
 			}
 			if !isEmptyHS(st.St) {
 				r.m.prevHS = st.St
@@ -386,7 +390,7 @@ func runHistory(root string, seg int64, ops []int) (*runner, error) {
 	// final: Close is an operation of its own (acknowledges everything)
 	r.rec.curOp = len(ops)
 	if err := r.w.Close(); err != nil {
-		return nil, fmt.Errorf("Close: %v", err)
+		return nil, &apiError{"Close", r.rec.curOp, err}
 	}
 	r.opDone("ret:Close(final)", true)
 	r.rec.observe("end", nil)
@@ -394,6 +398,15 @@ func runHistory(root string, seg int64, ops []int) (*runner, error) {
 }
 
 var errInapplicable = fmt.Errorf("inapplicable")
+
+// apiError: a call of the code under test failed although no fault was injected.
+type apiError struct {
+	call string
+	op   int
+	err  error
+}
+
+func (e *apiError) Error() string { return fmt.Sprintf("%s (op %d) failed without any fault: %v", e.call, e.op, e.err) }
 
 // opDone stamps the acknowledgement levels reached by the completed call and observes.
 func (r *runner) opDone(label string, must bool) {
@@ -525,13 +538,13 @@ type longHist struct {
 
 var longHists = []longHist{
 	// two cuts with 2 KiB segments, snapshot + release between them, overwrite across a cut
-	{"L1-2k-cuts-snap", 2048, []string{"a789", "a1100", "a1100z", "hsC", "snap", "a513", "a1100", "ow", "a480", "a1100", "hsC", "snap", "a100ns"}},
+	{"L1-2k-cuts-snap", 2048, []string{"a789", "a1100", "a1100z", "hsC", "snap", "a513", "a1100", "ow", "a480", "a4x1100", "hsC", "snap", "a100ns"}},
 	// records ending exactly on / straddling sector boundaries, reopen between cuts
 	{"L2-2k-reopen", 2048, []string{"a480", "a511", "a512", "a513", "reopen", "a1100z", "a1100", "hsT", "a789", "reopen", "a1100", "a1", "a0"}},
 	// term changes, commit-only states, final record is an entry without state
 	{"L3-2k-states", 2048, []string{"a1", "hsC", "hsT", "a1100", "ow", "a1100z", "hsC", "snap", "a1100", "a1100", "hsT", "ow", "a100ns"}},
 	// 8 KiB segments: two cuts need ~16 KiB
-	{"L4-8k-cuts", 8192, []string{"a1100", "a1100z", "a1100", "a513", "a1100", "a1100z", "a1100", "a1100", "hsC", "snap", "a1100", "a1100z", "a1100", "a512", "a1100", "a1100", "a1100", "a1100", "a789"}},
+	{"L4-8k-cuts", 8192, []string{"a1100", "a1100z", "a1100", "a513", "a1100", "a1100z", "a1100", "a1100", "hsC", "snap", "a1100", "a6x1100", "a512", "a1100", "a1100", "a789"}},
 	{"L5-8k-reopen-ow", 8192, []string{"a1100", "a1100", "a1100z", "a1100", "a1100", "a1100", "a1100", "a1100", "reopen", "ow", "a1100", "a1100", "a1100z", "a1100", "hsC", "snap", "a1100", "a1100", "a1100", "a480", "a100ns"}},
 	{"L6-2k-zero-payloads", 2048, []string{"a1100z", "a1100z", "a512", "a1100z", "hsC", "snap", "a1100z", "a1100z", "reopen", "a1100z", "a0"}},
 }
